@@ -1,6 +1,7 @@
 package main
 
 import (
+	"sort"
 	"fmt"
 	"go/token"
 	"go/types"
@@ -264,6 +265,16 @@ func (ex *Exec) execInstr(b *ssa.BasicBlock, st *State, in ssa.Instruction) {
 		ex.tuples[in] = tup
 		st.ghost["sel:idx"] = idx
 		st.ghost["sel:ok"] = tup[1]
+		// count v := select@N#K: how often the N-th select of the function (source order) took its K-th case
+		if ex.con != nil && ex.con.Counts != nil && ex.inlineDepth == 0 {
+			ord := ex.selectOrdinal(in)
+			for k := range in.States {
+				if v, ok := ex.con.Counts[fmt.Sprintf("select@%d#%d", ord, k)]; ok {
+					st.ghost["cnt:"+v] = ex.define("cnt", Add(ex.ghostGet(st, "cnt:"+v), Ite(Eq(idx, IntLit(int64(k))), IntLit(1), IntLit(0))))
+					ex.obsSeen[v] = true
+				}
+			}
+		}
 		if !in.Blocking && ex.con != nil && ex.con.ChanEvents {
 			// a non-blocking select that falls to `default` has observed its data channels empty (or full for sends)
 			hasDataRecv := false
@@ -1005,4 +1016,23 @@ func isRecoverGuard(fn *ssa.Function) bool {
 		}
 	}
 	return true
+}
+
+// selectOrdinal: the position of a select statement among the selects of the function under verification, in source order.
+func (ex *Exec) selectOrdinal(sel *ssa.Select) int {
+	var ps []token.Pos
+	for _, b := range ex.fn.Blocks {
+		for _, in := range b.Instrs {
+			if s, ok := in.(*ssa.Select); ok {
+				ps = append(ps, s.Pos())
+			}
+		}
+	}
+	sort.Slice(ps, func(i, j int) bool { return ps[i] < ps[j] })
+	for i, p := range ps {
+		if p == sel.Pos() {
+			return i + 1
+		}
+	}
+	return 0
 }
